@@ -223,7 +223,7 @@ std::string harness_run()
 {
   sim::pthread_model_reset();
   sim::clock_reset();
-  wc::WorldCfg w = wc::draw_cfg(3, 2, false);
+  wc::WorldCfg w = sim::thorough() ? wc::draw_cfg(4, 2, false) : wc::draw_cfg(3, 2, false);
   if(w.mesh == 1 || w.mesh == 4) { w.mesh = 0; w.mesh_file = "unit-square-quad.xml"; }   // quadrilateral meshes only in this harness
   if(w.parti == 2) w.parti = 1;
   CNT = Counters();
